@@ -254,7 +254,7 @@ Definition check_multi (news : list newI) (miners : list bytes) (h : list mobsI)
   let st := fold_left (fold_mobs lids miners) h (mkM [] true (map (fun _ => []) lids) true) in
   let guards :=
     forallb (fun i => let ops := ops_of_ledger i h in
-                      hist_guard [] ops && spellings_consistent [] ops)
+                      hist_guard [] ops && spellings_consistent [] ops && forallb op_keys_ok ops)
             (seq 0 (length lids)) in
   let m := m_m st && new_agree && guards &&
            Nat.eqb (length (m_w st)) (length dump) && forallb (fdent_eqb (m_w st)) dump in
